@@ -1,15 +1,19 @@
-(** * Facts about Base/Vec3.v [rotate] (model of corecel/math/ArrayUtils.hh) over R.
+(** * Facts about [rotate] (corecel/math/ArrayUtils.hh) over R, for both
+    versions of the code (C20/RotateVariants.v) and for Base/Vec3.v [rotate].
 
     [rotate d rot] applies to [d] the matrix
       [[z c, -s, st c], [z s, c, st s], [-st, 0, z]]
-    with st = sqrt(1 - z^2) and (c, s) = "cos/sin of the azimuth of rot",
-    computed in three branches.  The matrix is orthogonal in every branch
-    (unit result, dot products preserved).  It maps e_z to [rot] -- so that
-    the polar angle about [rot] is the polar angle of [d] -- in the first and
-    third branch, but in the middle branch (0 < st < min_acc) it maps e_z to
-    (x, |y|, z): the sign of rot_y is dropped ([rotate_polar_refuted]). *)
-From Coq Require Import Reals ZArith List Bool Lra Lia Nsatz.
-From Celer Require Import Base.Num Base.NumR Base.Stream Base.Vec3.
+    with st = sqrt(1 - z^2) and (c, s) = cos/sin of the azimuth of rot, computed
+    in three branches.  The matrix is orthogonal in every branch of either
+    version (unit result, dot products preserved).  It maps e_z to [rot] -- so
+    that the polar angle about [rot] is the polar angle of [d] --
+    - old code: in the first and third branch, but in the middle branch
+      (0 < st < min_acc) it maps e_z to (x, |y|, z): the sign of rot_y is
+      dropped ([rotate_polar_refuted], finding F10);
+    - repaired code: always ([rotate_new_polar]).
+    SWITCH POINT: lemma [rotate_base_eq] says which version Base/Vec3.v is. *)
+From Coq Require Import Reals ZArith List Bool Lra Lia.
+From Celer Require Import Base.Num Base.NumR Base.Stream Base.Vec3 C20.RotateVariants.
 Local Open Scope R_scope.
 
 Definition unit3 (v : vec3 R) : Prop := dot v v = 1.
@@ -20,43 +24,41 @@ Proof. unfold dot. numR. ring. Qed.
 Lemma unit3_R (v : vec3 R) : unit3 v <-> vx v * vx v + vy v * vy v + vz v * vz v = 1.
 Proof. unfold unit3. rewrite dot_R. tauto. Qed.
 
-(** the three-branch azimuth computation, as a function *)
-Definition rot_cs (min_acc : R) (rot : vec3 R) : R * R :=
+Lemma rotate_raw_with_R (cs : R * R) (d rot : vec3 R) :
+  rotate_raw_with cs d rot =
   let st := sqrt (1 - vz rot * vz rot) in
-  if Rleb min_acc st then (vx rot * (1 / st), vy rot * (1 / st))
-  else if Rltb 0 st then
-    let c := vx rot / sqrt (vx rot * vx rot + vy rot * vy rot) in (c, sqrt (1 - c * c))
-  else (1, 0).
-
-Lemma rotate_raw_R min_acc (d rot : vec3 R) :
-  rotate_raw min_acc d rot =
-  let st := sqrt (1 - vz rot * vz rot) in
-  let c := fst (rot_cs min_acc rot) in
-  let s := snd (rot_cs min_acc rot) in
   let a := vz rot * vx d + st * vz d in
-  V3 (a * c - s * vy d) (a * s + c * vy d) (- st * vx d + vz rot * vz d).
-Proof.
-  unfold rotate_raw, rot_cs. numR.
-  destruct (Rleb min_acc _); [reflexivity|].
-  destruct (Rltb 0 _); reflexivity.
-Qed.
+  V3 (a * fst cs - snd cs * vy d) (a * snd cs + fst cs * vy d) (- st * vx d + vz rot * vz d).
+Proof. unfold rotate_raw_with. destruct cs as [c s]. numR. reflexivity. Qed.
 
-(** which branch: the sign-preserving ones *)
+(** which branch of the OLD code: the sign-preserving ones *)
 Definition good_axis (min_acc : R) (rot : vec3 R) : Prop :=
   min_acc <= sqrt (1 - vz rot * vz rot) \/ 0 <= vy rot.
 
-Section Unit.
-  Variables (min_acc : R) (rot : vec3 R).
-  Hypothesis Hacc : 0 < min_acc.
+(** what the callers need from a rotation function about a fixed axis *)
+Definition rot_isometry (rotf : vec3 R -> vec3 R -> vec3 R) (axis : vec3 R) : Prop :=
+  (forall d, unit3 d -> unit3 (rotf d axis)) /\
+  (forall d e, unit3 d -> unit3 e -> dot (rotf d axis) (rotf e axis) = dot d e).
+Definition rot_polar (rotf : vec3 R -> vec3 R -> vec3 R) (axis : vec3 R) : Prop :=
+  forall d, unit3 d -> dot (rotf d axis) axis = vz d.
+
+(** make_unit_vector is the identity on unit vectors *)
+Lemma make_unit_vector_unit (v : vec3 R) : unit3 v -> make_unit_vector v = v.
+Proof.
+  intros Hv. unfold make_unit_vector, norm. unfold unit3 in Hv. rewrite Hv. numR.
+  rewrite sqrt_1. destruct v as [a b e]. cbn [vx vy vz]. f_equal; field.
+Qed.
+
+(** ** Generic part: any (c, s) on the unit circle gives an orthogonal matrix *)
+Section Generic.
+  Variables (rot : vec3 R) (c s : R).
   Hypothesis Hrot : unit3 rot.
+  Hypothesis Hcs : c * c + s * s = 1.
   Let x := vx rot. Let y := vy rot. Let z := vz rot.
   Let st := sqrt (1 - z * z).
-  Let c := fst (rot_cs min_acc rot).
-  Let s := snd (rot_cs min_acc rot).
 
   Lemma rot_xyz : x * x + y * y + z * z = 1.
   Proof. apply unit3_R in Hrot. exact Hrot. Qed.
-
   Lemma st_sq : st * st = 1 - z * z.
   Proof. unfold st. apply sqrt_sqrt. pose proof rot_xyz. nra. Qed.
   Lemma st_nonneg : 0 <= st.
@@ -64,13 +66,59 @@ Section Unit.
   Lemma st_xy : st * st = x * x + y * y.
   Proof. rewrite st_sq. pose proof rot_xyz. lra. Qed.
 
-  (** (c, s, c^2 + s^2 = 1, st c = x, st s = y or |y|) per branch *)
-  Lemma rot_cs_spec :
+  Lemma raw_dot (d e : vec3 R) :
+    dot (rotate_raw_with (c, s) d rot) (rotate_raw_with (c, s) e rot) = dot d e.
+  Proof.
+    rewrite !rotate_raw_with_R. cbv zeta. rewrite !dot_R. cbn [vx vy vz fst snd].
+    fold x y z. fold st. pose proof st_sq as Hsq. set (t := st) in *.
+    destruct d as [dx dy dz], e as [ex ey ez]. cbn [vx vy vz].
+    replace (((z * dx + t * dz) * c - s * dy) * ((z * ex + t * ez) * c - s * ey) +
+             ((z * dx + t * dz) * s + c * dy) * ((z * ex + t * ez) * s + c * ey) +
+             (- t * dx + z * dz) * (- t * ex + z * ez))
+      with (((z * dx + t * dz) * (z * ex + t * ez) + dy * ey) * (c * c + s * s)
+            + (- t * dx + z * dz) * (- t * ex + z * ez)) by ring.
+    rewrite Hcs.
+    replace (((z * dx + t * dz) * (z * ex + t * ez) + dy * ey) * 1 + (- t * dx + z * dz) * (- t * ex + z * ez))
+      with ((z * z + t * t) * (dx * ex + dz * ez) + dy * ey) by ring.
+    rewrite Hsq. ring.
+  Qed.
+
+  Lemma raw_unit (d : vec3 R) : unit3 d -> unit3 (rotate_raw_with (c, s) d rot).
+  Proof. unfold unit3. rewrite raw_dot. tauto. Qed.
+
+  (** polar angle about the axis (st c, st s, z) *)
+  Lemma raw_polar (d : vec3 R) (ay : R) : st * c = x -> st * s = ay ->
+    dot (rotate_raw_with (c, s) d rot) (V3 x ay z) = vz d.
+  Proof.
+    intros Hx Hy. rewrite rotate_raw_with_R. cbv zeta. rewrite dot_R. cbn [vx vy vz fst snd].
+    fold x y z. fold st. pose proof st_sq as Hsq. set (t := st) in *.
+    destruct d as [dx dy dz]. cbn [vx vy vz]. rewrite <- Hx, <- Hy.
+    replace (((z * dx + t * dz) * c - s * dy) * (t * c) +
+             ((z * dx + t * dz) * s + c * dy) * (t * s) + (- t * dx + z * dz) * z)
+      with ((z * dx + t * dz) * t * (c * c + s * s) + (- t * dx + z * dz) * z) by ring.
+    rewrite Hcs. replace ((z * dx + t * dz) * t * 1 + (- t * dx + z * dz) * z)
+      with ((t * t + z * z) * dz) by ring.
+    rewrite Hsq. ring.
+  Qed.
+End Generic.
+
+(** ** The (c, s) of the OLD code *)
+Section OldCs.
+  Variables (min_acc : R) (rot : vec3 R).
+  Hypothesis Hacc : 0 < min_acc.
+  Hypothesis Hrot : unit3 rot.
+  Let x := vx rot. Let y := vy rot. Let z := vz rot.
+  Let st := sqrt (1 - z * z).
+  Let c := fst (rot_cs_old min_acc rot).
+  Let s := snd (rot_cs_old min_acc rot).
+
+  Lemma rot_cs_old_spec :
     c * c + s * s = 1 /\ st * c = x /\
     ((min_acc <= st \/ st <= 0) /\ st * s = y \/ (0 < st < min_acc) /\ st * s = Rabs y).
   Proof.
-    pose proof st_sq as Hsq. pose proof st_nonneg as Hnn. pose proof st_xy as Hxy.
-    unfold c, s, rot_cs. fold x y z. fold st.
+    pose proof (st_sq rot Hrot) as Hsq. pose proof (st_nonneg rot) as Hnn. pose proof (st_xy rot Hrot) as Hxy.
+    cbv zeta in Hsq, Hnn, Hxy. fold x y z in Hsq, Hnn, Hxy. fold st in Hsq, Hnn, Hxy.
+    unfold c, s, rot_cs_old. numR. fold x y z. fold st.
     destruct (Rleb_spec min_acc st) as [Hb1|Hb1].
     - cbn [fst snd]. assert (Hst : st <> 0) by lra.
       split; [|split; [|left; split; [left; exact Hb1|]]].
@@ -106,88 +154,155 @@ Section Unit.
         split; [ring|split; [rewrite Hst, Hx; ring|left; split; [right; lra|rewrite Hst, Hy; ring]]].
   Qed.
 
-  Lemma rot_cs_unit : c * c + s * s = 1.
-  Proof. exact (proj1 rot_cs_spec). Qed.
+End OldCs.
 
-  (** the matrix preserves dot products *)
-  Lemma rotate_raw_dot (d e : vec3 R) :
-    dot (rotate_raw min_acc d rot) (rotate_raw min_acc e rot) = dot d e.
+(** ** The (c, s) of the REPAIRED code: always the true azimuth of rot *)
+Section NewCs.
+  Variables (min_acc : R) (rot : vec3 R).
+  Hypothesis Hacc : 0 < min_acc.
+  Hypothesis Hrot : unit3 rot.
+  Let x := vx rot. Let y := vy rot. Let z := vz rot.
+  Let st := sqrt (1 - z * z).
+  Let c := fst (rot_cs_new min_acc rot).
+  Let s := snd (rot_cs_new min_acc rot).
+
+  Lemma rot_cs_new_spec : c * c + s * s = 1 /\ st * c = x /\ st * s = y.
   Proof.
-    rewrite !rotate_raw_R. cbv zeta. rewrite !dot_R. cbn [vx vy vz].
-    fold x y z. fold st. fold c s.
-    pose proof rot_cs_unit as Hcs. pose proof st_sq as Hsq.
-    set (cc := c) in *. set (ss := s) in *. set (t := st) in *.
-    destruct d as [dx dy dz], e as [ex ey ez]. cbn [vx vy vz].
-    nsatz.
+    pose proof (st_sq rot Hrot) as Hsq. pose proof (st_nonneg rot) as Hnn. pose proof (st_xy rot Hrot) as Hxy.
+    cbv zeta in Hsq, Hnn, Hxy. fold x y z in Hsq, Hnn, Hxy. fold st in Hsq, Hnn, Hxy.
+    unfold c, s, rot_cs_new. numR. fold x y z. fold st.
+    destruct (Rleb_spec min_acc st) as [Hb1|Hb1].
+    - cbn [fst snd]. assert (Hst : st <> 0) by lra.
+      split; [|split].
+      + replace (x * (1 / st) * (x * (1 / st)) + y * (1 / st) * (y * (1 / st)))
+          with ((x * x + y * y) / (st * st)) by (field; exact Hst).
+        rewrite <- Hxy. field. exact Hst.
+      + field. exact Hst.
+      + field. exact Hst.
+    - destruct (Rltb_spec 0 (x * x + y * y)) as [Hb2|Hb2].
+      + cbn [fst snd].
+        assert (Hsqrt : sqrt (x * x + y * y) = st).
+        { rewrite <- Hxy. apply sqrt_square. exact Hnn. }
+        rewrite Hsqrt. assert (Hst : st <> 0) by (intros E; rewrite E in Hxy; lra).
+        split; [|split].
+        * replace (x * (1 / st) * (x * (1 / st)) + y * (1 / st) * (y * (1 / st)))
+            with ((x * x + y * y) / (st * st)) by (field; exact Hst).
+          rewrite <- Hxy. field. exact Hst.
+        * field. exact Hst.
+        * field. exact Hst.
+      + cbn [fst snd]. assert (Hx : x = 0) by nra. assert (Hy : y = 0) by nra.
+        assert (Hst : st = 0) by nra.
+        split; [ring|split; [rewrite Hst, Hx; ring|rewrite Hst, Hy; ring]].
+  Qed.
+End NewCs.
+
+(** ** Results for the two versions *)
+Lemma pair_eta (p : R * R) : p = (fst p, snd p).
+Proof. destruct p; reflexivity. Qed.
+
+Section Results.
+  Variables (min_acc : R) (rot : vec3 R).
+  Hypothesis Hacc : 0 < min_acc.
+  Hypothesis Hrot : unit3 rot.
+
+  Lemma rotate_old_eq_raw d : unit3 d ->
+    rotate_old min_acc d rot = rotate_raw_with (rot_cs_old min_acc rot) d rot.
+  Proof.
+    intros Hd. unfold rotate_old. apply make_unit_vector_unit.
+    rewrite (pair_eta (rot_cs_old min_acc rot)). apply raw_unit; try assumption.
+    apply (rot_cs_old_spec min_acc rot Hacc Hrot).
+  Qed.
+  Lemma rotate_new_eq_raw d : unit3 d ->
+    rotate_new min_acc d rot = rotate_raw_with (rot_cs_new min_acc rot) d rot.
+  Proof.
+    intros Hd. unfold rotate_new. apply make_unit_vector_unit.
+    rewrite (pair_eta (rot_cs_new min_acc rot)). apply raw_unit; try assumption.
+    apply (rot_cs_new_spec min_acc rot Hacc Hrot).
   Qed.
 
-  Lemma rotate_raw_unit (d : vec3 R) : unit3 d -> unit3 (rotate_raw min_acc d rot).
-  Proof. unfold unit3. rewrite rotate_raw_dot. tauto. Qed.
-
-  (** make_unit_vector is the identity on unit vectors *)
-  Lemma make_unit_vector_unit (v : vec3 R) : unit3 v -> make_unit_vector v = v.
+  Lemma rotate_old_isometry : rot_isometry (rotate_old min_acc) rot.
   Proof.
-    intros Hv. unfold make_unit_vector, norm. unfold unit3 in Hv. rewrite Hv. numR.
-    rewrite sqrt_1. destruct v as [a b e]. cbn [vx vy vz]. f_equal; field.
+    pose proof (rot_cs_old_spec min_acc rot Hacc Hrot) as (Hcs & _).
+    split.
+    - intros d Hd. rewrite rotate_old_eq_raw by exact Hd.
+      rewrite (pair_eta (rot_cs_old min_acc rot)). apply raw_unit; assumption.
+    - intros d e Hd He. rewrite !rotate_old_eq_raw by assumption.
+      rewrite (pair_eta (rot_cs_old min_acc rot)). apply raw_dot; assumption.
+  Qed.
+  Lemma rotate_new_isometry : rot_isometry (rotate_new min_acc) rot.
+  Proof.
+    pose proof (rot_cs_new_spec min_acc rot Hacc Hrot) as (Hcs & _).
+    split.
+    - intros d Hd. rewrite rotate_new_eq_raw by exact Hd.
+      rewrite (pair_eta (rot_cs_new min_acc rot)). apply raw_unit; assumption.
+    - intros d e Hd He. rewrite !rotate_new_eq_raw by assumption.
+      rewrite (pair_eta (rot_cs_new min_acc rot)). apply raw_dot; assumption.
   Qed.
 
-  Lemma rotate_eq_raw (d : vec3 R) : unit3 d -> rotate min_acc d rot = rotate_raw min_acc d rot.
-  Proof. intros Hd. unfold rotate. apply make_unit_vector_unit. apply rotate_raw_unit. exact Hd. Qed.
-
-  (** [rotate] returns a unit vector *)
-  Lemma rotate_unit (d : vec3 R) : unit3 d -> unit3 (rotate min_acc d rot).
-  Proof. intros Hd. rewrite rotate_eq_raw by exact Hd. apply rotate_raw_unit. exact Hd. Qed.
-
-  (** [rotate] preserves dot products (angles) *)
-  Lemma rotate_dot (d e : vec3 R) : unit3 d -> unit3 e ->
-    dot (rotate min_acc d rot) (rotate min_acc e rot) = dot d e.
-  Proof. intros Hd He. rewrite !rotate_eq_raw by assumption. apply rotate_raw_dot. Qed.
-
-  (** polar angle: in general about the axis (x, y or |y|, z) *)
-  Lemma rotate_polar_general (d : vec3 R) : unit3 d ->
-    dot (rotate min_acc d rot)
-        (V3 x (if andb (Rltb 0 st) (Rltb st min_acc) then Rabs y else y) z) = vz d.
+  (** old code: polar angle is kept about the axis (x, y or |y|, z) *)
+  Lemma rotate_old_polar_general d : unit3 d ->
+    dot (rotate_old min_acc d rot)
+        (V3 (vx rot)
+            (if andb (Rltb 0 (sqrt (1 - vz rot * vz rot))) (Rltb (sqrt (1 - vz rot * vz rot)) min_acc)
+             then Rabs (vy rot) else vy rot) (vz rot)) = vz d.
   Proof.
-    intros Hd. rewrite rotate_eq_raw by exact Hd. rewrite rotate_raw_R. cbv zeta.
-    rewrite dot_R. cbn [vx vy vz]. fold x y z. fold st. fold c s.
-    destruct rot_cs_spec as (Hcs & Hx & Hy). pose proof st_sq as Hsq.
-    set (cc := c) in *. set (ss := s) in *. set (t := st) in *.
-    destruct d as [dx dy dz]. cbn [vx vy vz].
+    intros Hd. rewrite rotate_old_eq_raw by exact Hd.
+    destruct (rot_cs_old_spec min_acc rot Hacc Hrot) as (Hcs & Hx & Hy).
+    rewrite (pair_eta (rot_cs_old min_acc rot)).
+    set (st := sqrt (1 - vz rot * vz rot)) in *.
     destruct Hy as [[Hbr Hy]|[Hbr Hy]].
-    - replace (andb (Rltb 0 t) (Rltb t min_acc)) with false.
+    - replace (andb (Rltb 0 st) (Rltb st min_acc)) with false.
       2:{ symmetry. apply andb_false_iff. destruct Hbr as [Hbr|Hbr];
           [right; apply Rltb_false; exact Hbr|left; apply Rltb_false; exact Hbr]. }
-      rewrite <- Hx, <- Hy.
-      replace (((z * dx + t * dz) * cc - ss * dy) * (t * cc) +
-               ((z * dx + t * dz) * ss + cc * dy) * (t * ss) + (- t * dx + z * dz) * z)
-        with ((z * dx + t * dz) * t * (cc * cc + ss * ss) + (- t * dx + z * dz) * z) by ring.
-      rewrite Hcs. replace ((z * dx + t * dz) * t * 1 + (- t * dx + z * dz) * z)
-        with ((t * t + z * z) * dz) by ring.
-      rewrite Hsq. ring.
-    - replace (andb (Rltb 0 t) (Rltb t min_acc)) with true.
+      apply raw_polar; assumption.
+    - replace (andb (Rltb 0 st) (Rltb st min_acc)) with true.
       2:{ symmetry. apply andb_true_iff. split; apply Rltb_true; lra. }
-      rewrite <- Hx, <- Hy.
-      replace (((z * dx + t * dz) * cc - ss * dy) * (t * cc) +
-               ((z * dx + t * dz) * ss + cc * dy) * (t * ss) + (- t * dx + z * dz) * z)
-        with ((z * dx + t * dz) * t * (cc * cc + ss * ss) + (- t * dx + z * dz) * z) by ring.
-      rewrite Hcs. replace ((z * dx + t * dz) * t * 1 + (- t * dx + z * dz) * z)
-        with ((t * t + z * z) * dz) by ring.
-      rewrite Hsq. ring.
+      apply raw_polar; assumption.
   Qed.
 
-  (** polar angle about [rot] itself: needs a sign-preserving branch *)
-  Lemma rotate_polar (d : vec3 R) : unit3 d -> good_axis min_acc rot ->
-    dot (rotate min_acc d rot) rot = vz d.
+  Lemma rotate_old_polar : good_axis min_acc rot -> rot_polar (rotate_old min_acc) rot.
   Proof.
-    intros Hd Hg.
-    assert (Hy : (if andb (Rltb 0 st) (Rltb st min_acc) then Rabs y else y) = y).
-    { unfold good_axis in Hg. fold z in Hg. fold st in Hg. fold y in Hg.
+    intros Hg d Hd.
+    set (st := sqrt (1 - vz rot * vz rot)).
+    assert (Hy : (if andb (Rltb 0 st) (Rltb st min_acc) then Rabs (vy rot) else vy rot) = vy rot).
+    { unfold good_axis in Hg. fold st in Hg.
       destruct (Rltb_spec 0 st); destruct (Rltb_spec st min_acc); cbn [andb]; try reflexivity.
       destruct Hg as [Hg|Hg]; [lra|]. apply Rabs_right. lra. }
-    rewrite <- (rotate_polar_general d Hd). rewrite Hy.
-    unfold x, y, z. destruct rot; reflexivity.
+    rewrite <- (rotate_old_polar_general d Hd). fold st. rewrite Hy.
+    destruct rot; reflexivity.
   Qed.
-End Unit.
+
+  (** repaired code: polar angle about [rot] is always kept *)
+  Lemma rotate_new_polar : rot_polar (rotate_new min_acc) rot.
+  Proof.
+    intros d Hd. rewrite rotate_new_eq_raw by exact Hd.
+    destruct (rot_cs_new_spec min_acc rot Hacc Hrot) as (Hcs & Hx & Hy).
+    rewrite (pair_eta (rot_cs_new min_acc rot)).
+    replace rot with (V3 (vx rot) (vy rot) (vz rot)) at 3 by (destruct rot; reflexivity).
+    apply raw_polar; assumption.
+  Qed.
+End Results.
+
+(** ** SWITCH POINT.  Base/Vec3.v [rotate] is, by computation, the OLD code.
+    After Base/Vec3.v is changed to the repaired middle branch, replace
+    [rotate_old] by [rotate_new] in the statement of [rotate_base_eq] (the proof
+    stays [reflexivity]), [rotate_old_isometry] by [rotate_new_isometry] in
+    [rotate_base_isometry], and use the second proof of [rotate_base_polar]. *)
+Lemma rotate_base_eq (min_acc : R) (d rot : vec3 R) : rotate min_acc d rot = rotate_old min_acc d rot.
+Proof. reflexivity. Qed.
+
+Lemma rotate_base_isometry min_acc rot : 0 < min_acc -> unit3 rot -> rot_isometry (rotate min_acc) rot.
+Proof.
+  intros Ha Hr. pose proof (rotate_old_isometry min_acc rot Ha Hr) as [H1 H2].
+  split; intros; rewrite ?rotate_base_eq; auto.
+Qed.
+
+Lemma rotate_base_polar min_acc rot : 0 < min_acc -> unit3 rot -> good_axis min_acc rot ->
+  rot_polar (rotate min_acc) rot.
+Proof.
+  intros Ha Hr Hg d Hd. rewrite rotate_base_eq. apply rotate_old_polar; assumption.
+  (* after the switch:  intros Ha Hr _ d Hd. rewrite rotate_base_eq. apply rotate_new_polar; assumption. *)
+Qed.
 
 (** make_unit_vector of a non-zero vector is unit *)
 Lemma make_unit_vector_is_unit (v : vec3 R) : 0 < dot v v -> unit3 (make_unit_vector v).
@@ -203,7 +318,7 @@ Proof.
   rewrite <- dot_R. rewrite Hss. field. lra.
 Qed.
 
-(** ** The middle branch drops the sign of rot_y (finding F10).
+(** ** The OLD middle branch drops the sign of rot_y (finding F10).
     rot = (0, -2t, 1 - t^2)/(1 + t^2) with t = 1/1000 is an exact unit vector
     0.115 degrees from +z; the image of d = e_x should be perpendicular to rot
     (d_z = 0) but is at cosine -4t(1-t^2)/(1+t^2)^2 ~ -0.004. *)
@@ -215,17 +330,23 @@ Proof. cbn [vz f10_rot]. apply sqrt_lem_1; lra. Qed.
 
 Lemma rotate_polar_refuted :
   exists d rot : vec3 R, unit3 d /\ unit3 rot /\
-    dot (rotate (T:=R) (5 / 1000) d rot) rot <> vz d.
+    dot (rotate_old (T:=R) (5 / 1000) d rot) rot <> vz d.
 Proof.
   exists f10_dir, f10_rot.
   assert (Hd : unit3 f10_dir) by (apply unit3_R; cbn; lra).
   assert (Hr : unit3 f10_rot) by (apply unit3_R; cbn; lra).
   split; [exact Hd|split; [exact Hr|]].
-  rewrite rotate_eq_raw by (try exact Hd; try exact Hr; lra).
-  rewrite rotate_raw_R. cbv zeta. unfold rot_cs. rewrite f10_sintheta.
+  rewrite rotate_old_eq_raw by (try exact Hd; try exact Hr; lra).
+  rewrite rotate_raw_with_R. cbv zeta. unfold rot_cs_old. numR. rewrite f10_sintheta.
   replace (Rleb (5 / 1000) (2000 / 1000001)) with false by (symmetry; apply Rleb_false; lra).
   replace (Rltb 0 (2000 / 1000001)) with true by (symmetry; apply Rltb_true; lra).
   cbn [fst snd]. rewrite dot_R. cbn [vx vy vz f10_rot f10_dir].
   replace (0 / sqrt (0 * 0 + - (2000 / 1000001) * - (2000 / 1000001))) with 0 by (unfold Rdiv; ring).
   replace (1 - 0 * 0) with 1 by ring. rewrite sqrt_1. lra.
+Qed.
+
+(** the same input is handled correctly by the repaired code *)
+Lemma rotate_new_polar_f10 : dot (rotate_new (T:=R) (5 / 1000) f10_dir f10_rot) f10_rot = vz f10_dir.
+Proof.
+  apply rotate_new_polar; try lra; apply unit3_R; cbn; lra.
 Qed.
